@@ -855,12 +855,22 @@ pub fn build_shape<Ctx: CtxInfo>(fix: &Fix, t: &T, pal: Palette, with_rows: bool
     let desc = if ms.ty.corr.base == miniscript::miniscript::types::Base::B { Ctx::descriptor(ms.clone(), fix) } else { None };
     let mut wits: Vec<GWit> = vec![];
     let mut rows = vec![];
-    let mut intern = |w: GWit, wits: &mut Vec<GWit>| -> usize {
+    let intern = |w: GWit, wits: &mut Vec<GWit>| -> usize {
         if let Some(i) = wits.iter().position(|x| *x == w) {
             i
         } else {
             wits.push(w);
             wits.len() - 1
+        }
+    };
+    // a plan carries no has_sig flag: it is identified with the satisfier's template of the
+    // same row when content and reported locks agree
+    let intern_plan = |w: GWit, same_row: usize, wits: &mut Vec<GWit>| -> usize {
+        let x = &wits[same_row];
+        if x.kind == w.kind && x.els == w.els && x.abs == w.abs && x.rel == w.rel {
+            same_row
+        } else {
+            intern(w, wits)
         }
     };
     if with_rows {
@@ -908,7 +918,8 @@ pub fn build_shape<Ctx: CtxInfo>(fix: &Fix, t: &T, pal: Palette, with_rows: bool
                         }
                         None => (plan_wit(fix, &Err(Descriptor::new_pk(fix.internal.clone())))?, plan_wit(fix, &Err(Descriptor::new_pk(fix.internal.clone())))?),
                     };
-                    let w = [intern(sat, &mut wits), intern(sat_m, &mut wits), intern(dis, &mut wits), intern(dis_m, &mut wits), intern(plan.0, &mut wits), intern(plan_m.0, &mut wits)];
+                    let (i_sat, i_sat_m) = (intern(sat, &mut wits), intern(sat_m, &mut wits));
+                    let w = [i_sat, i_sat_m, intern(dis, &mut wits), intern(dis_m, &mut wits), intern_plan(plan.0, i_sat, &mut wits), intern_plan(plan_m.0, i_sat_m, &mut wits)];
                     rows.push(GRow { sigs, pres, after_ok: vec.0, older_ok: vec.1, w, sizes: [plan.1, plan.2, plan_m.1, plan_m.2], rep: *rep });
                 }
             }
@@ -1037,8 +1048,8 @@ pub fn emit_shape(out: &mut String, ident: &str, g: &GShape) {
     for r in &g.rows {
         let _ = write!(
             out,
-            "Row{{sigs:{},pres:{},after_ok:{},older_ok:{},sat:{},sat_m:{},sat_k:{},sat_m_k:{},dis:{},dis_m:{},plan:{},plan_m:{},plan_wsize:{},plan_ssize:{},plan_m_wsize:{},plan_m_ssize:{}}},",
-            r.sigs, r.pres, r.after_ok, r.older_ok, r.w[0], r.w[1], g.wits[r.w[0]].kind, g.wits[r.w[1]].kind, r.w[2], r.w[3], r.w[4], r.w[5], r.sizes[0], r.sizes[1], r.sizes[2], r.sizes[3]
+            "Row{{sigs:{},pres:{},after_ok:{},older_ok:{},sat:{},sat_m:{},sat_k:{},sat_m_k:{},plan_k:{},plan_m_k:{},dis:{},dis_m:{},plan:{},plan_m:{},plan_wsize:{},plan_ssize:{},plan_m_wsize:{},plan_m_ssize:{}}},",
+            r.sigs, r.pres, r.after_ok, r.older_ok, r.w[0], r.w[1], g.wits[r.w[0]].kind, g.wits[r.w[1]].kind, g.wits[r.w[4]].kind, g.wits[r.w[5]].kind, r.w[2], r.w[3], r.w[4], r.w[5], r.sizes[0], r.sizes[1], r.sizes[2], r.sizes[3]
         );
     }
     let _ = writeln!(out, "];");
